@@ -14,9 +14,9 @@ PLANS = {
     "C01": {"quick": [("wt9", "full-unique"), ("f7", "full-unique"), ("sc1", "full-unique"), ("sc2", "full-unique")],
             "thorough": [("wt10", "full-unique"), ("wt10b", "full-unique,lean-shadow"), ("f7", "full-unique"),
                          ("f7b", "full-unique")]},
-    "C02": {"quick": [("wt9", "full-unique,lean-shadow"), ("sc1", "full-unique,lean-shadow"), ("sc2", "full-unique,lean-shadow"), ("sc3", "full-unique,lean-shadow")],
+    "C02": {"quick": [("wt9", "full-unique,lean-shadow"), ("sc1", "full-unique,lean-shadow"), ("sc2", "full-unique,lean-shadow"), ("sc3", "full-unique,lean-shadow"), ("sc5", "full-unique,lean-shadow")],
             "thorough": [("wt10", "full-unique,lean-shadow,full-random"), ("wt10b", "full-unique,lean-random"),
-                         ("wt9v", "full-unique,lean-shadow"), ("sc1", "full-unique,lean-random"), ("sc2", "full-unique,lean-random"), ("sc3", "full-unique,lean-random,lean-shadow")]},
+                         ("wt9v", "full-unique,lean-shadow"), ("sc1", "full-unique,lean-random"), ("sc2", "full-unique,lean-random"), ("sc3", "full-unique,lean-random,lean-shadow"), ("sc5", "full-unique,lean-random,lean-shadow")]},
     "C03": {"quick": [("f7", "full-unique"), ("wt9", "lean-shadow"), ("sc4", "full-unique,lean-unique"), ("fs", "full-unique,lean-unique,lean-random")],
             "thorough": [("f7", "full-unique"), ("f7b", "full-unique"), ("wt10", "lean-unique,full-shadow"),
                          ("wt10b", "lean-shadow"), ("sc4", "full-unique,lean-unique,lean-shadow"), ("fs", "full-unique,lean-unique,lean-random")]},
@@ -35,6 +35,8 @@ def expected_tokens(cfg):
             return {"match", "thunk", "force", "do", "exit", "ctor"}
         if cfg == "sc3":
             return {"comatch", "dtor", "lam", "app", "arith", "exit"}
+        if cfg == "sc5":
+            return {"fix", "comatch", "dtor", "lam", "app", "match", "ctor", "force", "exit"}
         return {"vlam", "vapp", "matchP", "pair", "let"} if cfg == "sc1" else {"thunk", "lam", "do", "force", "matchP", "app"}
     if cfg.endswith("v"):
         return {"vlam", "vapp", "let", "exit"}
